@@ -72,6 +72,10 @@ pub struct Behavior {
     /// stdout/stderr open for this long
     #[serde(default, skip_serializing_if = "is_zero")]
     pub linger_ms: u64,
+    /// monorail invocations (argument lists after `-f <config>`) the helper makes itself, one
+    /// after the other, before its own output; their outcomes go to `nested-*.json` in the trace dir
+    #[serde(default, skip_serializing_if = "Vec::is_empty")]
+    pub nested: Vec<Vec<String>>,
     /// bytes written to stdout before anything else (before the barrier / gate)
     #[serde(default, skip_serializing_if = "is_zero")]
     pub pre_out_bytes: u64,
@@ -347,6 +351,9 @@ impl Env {
             if b.pre_out_bytes > 0 {
                 m.insert("pre_out_bytes".into(), json!(b.pre_out_bytes));
             }
+            if !b.nested.is_empty() {
+                m.insert("nested".into(), json!(b.nested));
+            }
             if !b.chmod.is_empty() {
                 let v: Vec<Value> = b.chmod.iter().map(|(p, m)| json!([self.path(p).display().to_string(), m])).collect();
                 m.insert("chmod".into(), Value::Array(v));
@@ -383,6 +390,9 @@ impl Env {
             .env("TOKIO_WORKER_THREADS", "4")
             .env("RAYON_NUM_THREADS", "2")
             .env("MRV_HELPER", helper_bin())
+            .env("MRV_MONORAIL_BIN", monorail_bin())
+            .env("MRV_CONFIG", self.config_path())
+            .env("MRV_REPO", &self.repo)
             .env("MRV_PLAN", &self.plan_path)
             .env("MRV_TRACE", &self.trace);
         for (k, v) in &self.extra_env {
